@@ -34,6 +34,10 @@ NAMES = ['tempo', 'beat_dur', 'base_seconds', 'base_beats', 'beats_per_bar', 'ba
 def num_term(a):
     if a is None:
         return '(I 0%Z)'          # None and 0 are both falsy in `x or default`
+    if a[0] == 'NZ':
+        return '(F (0 # 1)%Q)'    # -0.0: the rational 0 (falsy, compares equal to 0.0)
+    if a[0] == 'B':
+        return '(I 0%Z)'          # False: the int 0 in arithmetic
     return '(I %s)' % cz(a[1]) if a[0] == 'I' else '(F %s)' % cq(Fraction(a[1]))
 
 
@@ -68,6 +72,8 @@ def quant_term(q):
     if k == 'pair':
         return '(QPair %s %s)' % (num_term(q[1]), num_term(q[2]))
     if k in ('list', 'tuple'):
+        if len(q[1]) == 0:
+            return 'QNone'        # Quant(*[]) = Quant()
         if len(q[1]) == 1:
             return '(QNum %s)' % num_term(q[1][0])
         return '(QPair %s %s)' % (num_term(q[1][0]), num_term(q[1][1]))
@@ -139,7 +145,9 @@ def quant_pair(q):
         return Fraction(q[1][1]), Fraction(0)
     if k == 'pair':
         return Fraction(q[1][1]), Fraction(q[2][1])
-    vals = [Fraction(x[1]) for x in q[1]]
+    vals = [Fraction(0) if x[0] in ('NZ', 'B') else Fraction(x[1]) for x in q[1]]
+    if not vals:
+        return Fraction(1), Fraction(0)
     return vals[0], (vals[1] if len(vals) > 1 else Fraction(0))
 
 
@@ -149,7 +157,10 @@ def case_term(case, out, rt=False):
     if out.get('error'):
         return 'Some 0%N', ['runner error: ' + out['error']]
     now0 = out_as_num(out['init_now']) if out.get('init_now') else num_term(case['t0'])
-    secs = out_as_num(out['rt_seconds']) if rt else num_term(i['seconds'])
+    if rt:
+        secs = '(Some %s)' % out_as_num(out['rt_seconds'])
+    else:
+        secs = 'None' if i['seconds'] is None else '(Some %s)' % num_term(i['seconds'])
     if isinstance(out['init'], str):                 # constructor raised
         return ('session_bad %s %s %s %s %s [] []' % ('true' if rt else 'false', now0, num_term(i['tempo']), num_term(i['beats']), secs),
                 ['constructor'])
@@ -165,16 +176,22 @@ def case_term(case, out, rt=False):
             desc.append('wake-up of played routine %s' % ev)
             continue
         act = flat[ev['k']]
+        if act[0] == 'sleep':
+            continue
         if act[0] == 'set':
             kind = 'beats' if act[1] == 'beats_rel' else act[1]
             val = out_as_num(ev['value']) if act[1] == 'beats_rel' and 'value' in ev else num_term(act[2])
             o = '(%s %s %s)' % (SETS[kind], out_as_num(ev['elapsed'] if kind == 'etempo' else ev['now']), val)
-            exp = '[]' if 'raised' in ev else state_term(ev['state'])
-            acts.append('ASet %s %s' % (o, exp))
+            if 'raised' in ev:     # a raising change must leave the clock exactly as it was
+                acts.append('ARaise %s %s' % (o, state_term(ev['state'])))
+            else:
+                acts.append('ASet %s %s' % (o, state_term(ev['state'])))
         elif act[0] == 'ask':
             exp = '(2, 0, 0)%Z' if 'raised' in ev else enc_term(ev['result'])
             if act[1] == 'grid_rel':
                 k = '(KGridRef %s %s %s)' % (num_term(act[2][0]), num_term(act[2][1]), out_as_num(ev['ref']))
+            elif act[1] == 'next_bar_rel':
+                k = '(KNextBarAt %s)' % out_as_num(ev['ref'])
             else:
                 k = ask_term(act, ev)
             acts.append('AAsk %s %s' % (k, exp))
@@ -229,6 +246,11 @@ def gen_quant_phase(rng, valid=True):
     r = rng.random()
     if r < 0.25:
         p = Fraction(0)
+    elif r < 0.40:
+        # the edges of the domain: phase -> +-quant (one grid step inside; exactly +-quant only in the malformed stream)
+        p = rng.choice([-1, 1]) * (q - Fraction(1, rng.choice([8, 64, 1024])))
+        if not valid and rng.random() < 0.5:
+            p = rng.choice([-1, 1]) * q
     elif valid or rng.random() < 0.7:
         # strictly inside (-q, q), biased to the ends and to grid points
         steps = int(q * 8)
@@ -263,7 +285,7 @@ def gen_quantarg(rng, malformed=False):
     return [rng.choice(['list', 'tuple']), [nm(rng, q)]]
 
 
-TEMPI = [Fraction(1, 4), Fraction(1, 2), 1, 1, 2, 2, 4, 8]
+TEMPI = [Fraction(1, 4), Fraction(1, 2), 1, 1, 2, 2, 4, 8, 1, 2, 4, Fraction(1, 256), 1024]
 METERS = [Fraction(1, 2), 1, 2, 2, 4, 4, 8]
 
 
@@ -287,11 +309,16 @@ def gen_ask(rng, malformed, rt=False):
         if p == 0 and rng.random() < 0.7:
             p = rng.choice([-1, 1]) * q / 4
         d = rng.choice([p, p - Fraction(1, 8), p + Fraction(1, 8), Fraction(0), -q, p - q, Fraction(-1, 4), p + q,
+                        p + rng.randint(-3, 3) * q,                      # exactly on a grid point
+                        p + rng.randint(-3, 3) * q - Fraction(1, 1024),  # one grid step before it
                         dy(rng, 3, -3, 3)])
         return ['ask', 'grid_rel', [nm(rng, q), nm(rng, p), nm(rng, d, allow_int=False)]]
     if r < 0.42:
         return ['ask', 'time_to_next_beat', [gen_quantarg(rng, malformed)]]
-    if r < 0.52:
+    if r < 0.47:
+        # exactly on a bar line / one grid step around it
+        return ['ask', 'next_bar_rel', [nm(rng, rng.randint(-3, 4)), nm(rng, rng.choice([0, 0, Fraction(1, 1024), Fraction(-1, 1024)]), allow_int=False)]]
+    if r < 0.54:
         return ['ask', 'next_bar', [nm(rng, dy(rng, 2, -20, 60))] if rng.random() < 0.6 else []]
     names = ['beats', 'seconds', 'beats2secs', 'secs2beats', 'beats2bars', 'bars2beats',
              'bar', 'beat_in_bar', 'bar', 'beat_in_bar', 'tempo', 'beat_dur', 'beats_per_bar', 'base_bar',
@@ -328,6 +355,8 @@ def gen_set(rng, malformed, rt=False):
     v = rng.choice(METERS)
     if malformed and rng.random() < 0.3:
         v = -v
+    if malformed and rng.random() < 0.15:
+        v = 0                   # raises ZeroDivisionError: must leave the clock as it was
     return ['set', 'meter', nm(rng, v)]
 
 
@@ -359,6 +388,8 @@ def gen_case(rng, malformed=False, nsteps=None, rt=False):
         acts = []
         for _ in range(rng.randint(1, 5)):
             r = rng.random()
+            if rt and rng.random() < 0.25:
+                acts.append(['sleep', rng.choice([20, 40, 60])])    # the routine runs LATE from here on
             if r < 0.4:
                 acts.append(gen_set(rng, malformed, rt))
             elif r < 0.52:
@@ -368,6 +399,50 @@ def gen_case(rng, malformed=False, nsteps=None, rt=False):
         y = Fraction(rng.randint(0, 4), 8) if rt else Fraction(rng.randint(0, 24), 8)
         case['steps'].append({'acts': acts, 'yield': nm(rng, y)})
     case['steps'][-1]['yield'] = None
+    return case
+
+
+FALSY = [['I', '0'], ['F', '0'], ['NZ'], ['B', '0']]
+
+
+def falsify(rng, case, prob=0.4):
+    """Bug class "falsy zero": every optional / explicit numeric argument also as an EXPLICIT 0, 0.0, -0.0, False
+    (and empty list/tuple for the quant argument); False only where the value is used in arithmetic, not stored."""
+    def z(stored=False):
+        return list(rng.choice(FALSY[:3] if stored else FALSY))
+
+    def zq(q):
+        r = rng.random()
+        if r < 0.2:
+            return [rng.choice(['list', 'tuple']), []]
+        if r < 0.5:
+            return ['num', z()]
+        if r < 0.75:
+            return ['pair', z(), z()]
+        if q is not None and q[0] == 'pair':
+            return ['pair', q[1], z()]            # phase 0 with a real quant
+        return ['quant1', z()]
+    i = case['init']
+    for k in ('tempo', 'beats', 'seconds'):
+        if rng.random() < prob:
+            i[k] = z(stored=True)
+    if rng.random() < prob / 2:
+        case['start_quant'] = zq(case['start_quant'])
+    for st in case['steps']:
+        if st.get('yield') is not None and rng.random() < prob / 2:
+            st['yield'] = z(stored=True)
+        for act in st['acts']:
+            if act[0] == 'set':
+                if rng.random() < (prob if act[1] != 'meter' else prob / 3):
+                    act[2] = z(stored=True)
+            elif act[0] == 'ask':
+                if act[1] == 'time_to_next_beat':
+                    if rng.random() < prob:
+                        act[2] = [zq(act[2][0])]
+                else:
+                    act[2] = [z() if rng.random() < prob else a for a in act[2]]
+            elif act[0] in ('play', 'clock_play') and rng.random() < prob:
+                act[1] = zq(act[1])
     return case
 
 
@@ -384,7 +459,7 @@ def is_nontrivial(case, out):
     okset = any(a[0] == 'set' and 'raised' not in e for a, e in evs)
     grid = False
     for a, e in evs:
-        if a[0] == 'ask' and a[1] in ('next_time_on_grid', 'grid_rel', 'next_bar', 'beat_in_bar', 'bar', 'time_to_next_beat') \
+        if a[0] == 'ask' and a[1] in ('next_time_on_grid', 'grid_rel', 'next_bar', 'next_bar_rel', 'beat_in_bar', 'bar', 'time_to_next_beat') \
                 and 'result' in e and e['result'][0] in (0, 1):
             grid = True
     return okset and grid
@@ -429,7 +504,7 @@ def tally(c, tagged, out, mode):
                 c.count(mode + ' wake-up')
             else:
                 a = flat[e['k']]
-                key = mode + ' ' + a[0] + ':' + (a[1] if a[0] in ('set', 'ask') else '')
+                key = mode + ' ' + a[0] + ':' + (str(a[1]) if a[0] in ('set', 'ask') else '')
                 c.count(key + ('!raised' if 'raised' in e else ''))
             c.evaluations += 1
         nb = changes_before_wake(case, o)
@@ -450,6 +525,7 @@ def correspond(ctx):
     tagged = [(k, 'corpus') for k in cases]
     tagged += [(gen_case(rng, False), 'valid') for _ in range(n_valid)]
     tagged += [(gen_case(rng, True), 'malformed') for _ in range(n_mal)]
+    tagged += [(falsify(rng, gen_case(rng, False)), 'falsy') for _ in range(ctx.n(90, 900))]
     cases = [t[0] for t in tagged]
     out = ctx.impl('c12_sessions', {'cases': cases}, timeout=900)['out']
     items, descs = [], []
